@@ -35,7 +35,7 @@ CASES = [
     dict(name="water_density", targets=["chempy.properties.water_density_tanaka_2001.water_density"],
          setup="from chempy.properties.water_density_tanaka_2001 import water_density as f",
          vars={"T": (220, 375)}, plain="f(T)", units="f(T*U.Kelvin, units=U)", unit="U.kilogram/U.meter**3",
-         warn=("T", 273.15, 313.15)),
+         warn=("T", Fraction(273.15), Fraction(273.15) + 40), warn_exact=True),
     # optional arguments: the reference temperature (any value incl. 0: Celsius input) and the five parameters of Thiesen's equation
     dict(name="water_density_T0_a", targets=["chempy.properties.water_density_tanaka_2001.water_density"],
          setup="from chempy.properties.water_density_tanaka_2001 import water_density as f",
@@ -52,7 +52,7 @@ CASES = [
     dict(name="water_viscosity", targets=["chempy.properties.water_viscosity_korson_1969.water_viscosity"],
          setup="from chempy.properties.water_viscosity_korson_1969 import water_viscosity as f",
          vars={"T": (220, 447)}, plain="f(T)", units="f(T*U.kelvin, units=U)", unit="U.centipoise",
-         warn=("T", 273.15, 373.15)),
+         warn=("T", Fraction(273.15), Fraction(273.15) + 100), warn_exact=True),
     dict(name="water_viscosity_eta20", targets=["chempy.properties.water_viscosity_korson_1969.water_viscosity"],
          setup="from chempy.properties.water_viscosity_korson_1969 import water_viscosity as f",
          vars={"T": (274, 373), "eta": POS}, plain="f(T, eta)", units="f(T*U.kelvin, eta*U.pascal*U.second, units=U)",
@@ -60,7 +60,7 @@ CASES = [
     dict(name="water_diffusivity", targets=["chempy.properties.water_diffusivity_holz_2000.water_self_diffusion_coefficient"],
          setup="from chempy.properties.water_diffusivity_holz_2000 import water_self_diffusion_coefficient as f",
          vars={"T": (220, 447)}, plain="f(T)", units="f(T*U.Kelvin, units=U)", unit="U.meter**2/U.second",
-         warn=("T", 273.15, 373.15)),
+         warn=("T", Fraction(273.15), Fraction(373.15)), warn_exact=True),
     dict(name="water_diffusivity_err", targets=["chempy.properties.water_diffusivity_holz_2000.water_self_diffusion_coefficient"],
          setup="from chempy.properties.water_diffusivity_holz_2000 import water_self_diffusion_coefficient as f",
          vars={"T": (274, 373), "e0": (-3, 3), "e1": (-3, 3)}, plain="f(T, err_mult=(e0, e1))",
@@ -104,6 +104,15 @@ CASES = [
          vars={"c1": POS, "c2": POS}, plain="f({'Na+': c1, 'Cl-': c2}, 'O2')",
          units="f({'Na+': c1*U.molar, 'Cl-': c2*1000*U.millimolar}, 'O2', units=U)", unit="1",
          formula="(Const(p_gas_rM['O2']) + Const(p_ion_rM['Na+']))*c1 + (Const(p_gas_rM['O2']) + Const(p_ion_rM['Cl-']))*c2"),
+    # an ion whose tabulated parameter is exactly zero (H+ is the reference ion of the model) still contributes the gas-specific term
+    dict(name="lg_solubility_ratio_reference_ion", targets=["chempy.properties.gas_sol_electrolytes_schumpe_1993.lg_solubility_ratio"],
+         setup="from chempy.properties.gas_sol_electrolytes_schumpe_1993 import lg_solubility_ratio as f, p_gas_rM, p_ion_rM",
+         vars={"c1": POS, "c2": POS}, plain="(f({'H+': c1, 'Cl-': c2}, 'CO2'), f({'H+': c1, 'Cl-': c2}, 'He', warn=False), f({'H+': c1}, 'CO2'))",
+         units="(f({'H+': c1*U.molar, 'Cl-': c2*1000*U.millimolar}, 'CO2', units=U), f({'H+': c1*U.molar, 'Cl-': c2*U.molar}, 'He', units=U, warn=False), "
+               "f({'H+': c1*U.molar}, 'CO2', units=U))", unit="1",
+         formula="((Const(p_gas_rM['CO2']) + Const(p_ion_rM['H+']))*c1 + (Const(p_gas_rM['CO2']) + Const(p_ion_rM['Cl-']))*c2, "
+                 "(Const(p_gas_rM['He']) + Const(p_ion_rM['H+']))*c1 + (Const(p_gas_rM['He']) + Const(p_ion_rM['Cl-']))*c2, "
+                 "(Const(p_gas_rM['CO2']) + Const(p_ion_rM['H+']))*c1)"),
     dict(name="Henry_H_at_T", targets=["chempy.henry.Henry_H_at_T"], setup="from chempy.henry import Henry_H_at_T as f",
          vars={"T": (200, 500), "H": POS, "Td": (None, None), "T0": (200, 500)}, plain="f(T, H, Td, T0, backend=be)",
          units="f(T*U.Kelvin, H*U.molar/U.atm, Td*U.Kelvin, T0*U.Kelvin, units=U, backend=be)", unit="U.molar/U.atm",
